@@ -9,6 +9,19 @@ implementation is snapshotted (n_modes, input_modes, heralds, U_full) and compar
   * with the model pool after the same call (correspondence).
 Read-only consumers (Simulator, Sampler, Analyzer, Reck.map, Display, tomography, the qiskit
 converter's and tomography's shared module-level gate objects) are probed on the implementation.
+
+Three streams of histories, in this order:
+  1. a directed corpus of *building-block* shapes (`CORPUS`): an argument that itself holds grouped
+     blocks (Unitary or sub-circuit, depth 1 and 2) placed ungrouped / grouped, at mode 0 and at
+     modes > 0, twice in one parent and in two parents; the same with a parent ancilla inside the
+     span; copies / sums that share their components with the original and are then extended by a
+     heralded sub-circuit; one child shared by two cells that end up in one parent; self-addition;
+  2. random tiered histories (`gen_blocks`: leaves -> cells -> wrappers -> parents, with Parameters
+     and heralds), a third of them compared with the model, the rest with the property's own frame
+     oracle only (`blocks:oracle-only`);
+  3. the flat random histories (`gen_history`).
+A snapshot of an object is n_modes, input_modes, heralds, U_full, U, whether it still compiles (and the
+error class when not) and get_all_params (identity, value and bounds of every Parameter).
 """
 
 from __future__ import annotations
@@ -18,6 +31,7 @@ import json
 import numpy as np
 
 import circgen as cg
+import circgen_ext as cx
 import lightworks as lw
 from core import CIRCLE, PYTH, Ctx, ddmin, mat_close, parse_mat
 
@@ -28,27 +42,15 @@ TRUSTED = [
     "Python object identity/aliasing is not modelled: the model's values are immutable, the check observes the "
     "implementation's objects instead",
 ]
-ASSUMPTIONS = ["histories: 5-30 calls over 2-5 live circuits (<= 5 user modes) in the correspondence check"]
+ASSUMPTIONS = ["histories: 5-40 calls over 2-9 live circuits (<= 6 user modes) in the correspondence check",
+               "Parameters are never re-set inside a history (C10 owns that): the model sees a Parameter as its value"]
 
 TARGET = {"new": 1, "unitary": 1, "bs": 1, "ps": 1, "loss": 1, "barrier": 1, "swaps": 1, "herald": 1, "add": 1,
           "plus": 1, "copy": 1, "unpack": 1, "compress": 1, "nonadj": 1}
 
 
-def snap(c) -> dict:
-    o = cg.observe(c)
-    return o
-
-
-def same(a: dict, b: dict) -> bool:
-    if a["n"] != b["n"] or a["input_modes"] != b["input_modes"]:
-        return False
-    if a["in_heralds"] != b["in_heralds"] or a["out_heralds"] != b["out_heralds"]:
-        return False
-    if ("U_full" in a) != ("U_full" in b):
-        return False
-    if "U_full" in a:
-        return a["U_full"].shape == b["U_full"].shape and mat_close(a["U_full"], b["U_full"], 1e-12)
-    return True
+snap = cx.snap
+same = cx.same
 
 
 def gen_history(ctx: Ctx, rng) -> tuple[list, list]:
@@ -127,14 +129,288 @@ def gen_history(ctx: Ctx, rng) -> tuple[list, list]:
     return prog, ids
 
 
-def run_case(ctx: Ctx, prog: list, ids: list) -> list[str]:
+# --------------------------------------------------------------------------- building-block histories
+#
+# What can be written to by mistake is not only the argument's own bookkeeping but every mutable object
+# the argument *shares*: Circuit.copy() and __add__ are shallow, so copies, sums and the private copies
+# made inside add() all hold the same component objects (Group objects with their nested spec lists and
+# herald dicts, UnitaryMatrix arrays, swap dicts).  Every in-place edit of a component (shifting by the
+# insertion mode, inserting a pass-through / ancilla mode) must therefore happen on a per-component copy,
+# recursively through groups.  The shapes below put a grouped block (depth 1 and 2) in exactly the
+# positions where such an edit happens, and keep every object that shares it alive and observed.
+
+
+def _cell(b: cx.Book, cid: str, leaf: str, n: int | None = None, group: bool = True, positive: bool | None = None) -> str:
+    """cell = circuit holding `leaf` as a (grouped) block plus a few primitives"""
+    rng = b.rng
+    n = n if n is not None else rng.randint(max(2, b.free[leaf]), max(2, b.free[leaf]) + rng.randint(0, 2))
+    b.new(cid, n)
+    b.prim(cid, k=rng.randint(0, 2))
+    b.add(cid, leaf, b.place_mode(cid, leaf, positive), group)
+    b.prim(cid, k=rng.randint(0, 1))
+    return cid
+
+
+def _leaf(b: cx.Book, lid: str, kind: str | None = None) -> str:
+    rng = b.rng
+    kind = kind or rng.choice(["unitary", "unitary", "circuit", "heralded"])
+    if kind == "unitary":
+        return b.unitary(lid, rng.randint(1, 3))
+    if kind == "heralded":
+        return b.small_heralded(lid)
+    b.new(lid, rng.randint(1, 3))
+    b.prim(lid, k=rng.randint(1, 3))
+    return lid
+
+
+def shape_tile(b: cx.Book) -> None:
+    """a cell with a grouped block placed ungrouped at modes > 0 twice in one parent and once in another,
+    then grouped, then at mode 0; the cell is edited in between"""
+    rng = b.rng
+    _leaf(b, "l0", rng.choice(["unitary", "unitary", "circuit"]))
+    _cell(b, "b0", "l0", positive=rng.random() < 0.7)
+    n = b.free["b0"] + rng.randint(1, 3)
+    b.new("P0", n)
+    b.new("P1", n + rng.randint(0, 1))
+    b.prim("P0")
+    b.add("P0", "b0", b.place_mode("P0", "b0", True), False)
+    b.prim("P0")
+    b.add("P0", "b0", b.place_mode("P0", "b0", True), False)
+    b.add("P1", "b0", b.place_mode("P1", "b0", True), False)
+    b.prim("b0")
+    b.add("P1", "b0", b.place_mode("P1", "b0"), True)
+    b.add("P0", "b0", 0, rng.random() < 0.5)
+
+
+def shape_depth2(b: cx.Book) -> None:
+    """leaf grouped in a cell, the cell grouped in a wrapper, the wrapper placed ungrouped at a mode > 0
+    (the shared Group holds a Group), in two parents"""
+    rng = b.rng
+    _leaf(b, "l0", rng.choice(["unitary", "circuit"]))
+    _cell(b, "b0", "l0")
+    b.new("w0", b.free["b0"] + rng.randint(0, 1))
+    b.prim("w0", k=rng.randint(0, 1))
+    b.add("w0", "b0", b.place_mode("w0", "b0"), True)
+    b.prim("w0", k=rng.randint(0, 1))
+    n = b.free["w0"] + rng.randint(1, 2)
+    b.new("P0", n)
+    b.add("P0", "w0", b.place_mode("P0", "w0", True), False)
+    b.add("P0", "w0", b.place_mode("P0", "w0", True), rng.random() < 0.3)
+    b.new("P1", n)
+    b.add("P1", "w0", b.place_mode("P1", "w0"), False)
+    b.prim("b0")
+    b.add("P1", "b0", b.place_mode("P1", "b0", True), False)
+
+
+def shape_ancilla_in_span(b: cx.Book) -> None:
+    """the parent already has an ancilla strictly inside the span of an ungrouped placement of a cell
+    that holds a grouped block: the pass-through mode is inserted into the (shared) block"""
+    rng = b.rng
+    _leaf(b, "l0", "unitary" if rng.random() < 0.6 else "circuit")
+    b.small_heralded("h0")
+    _cell(b, "b0", "l0", n=max(3, b.free["l0"] + 1))
+    n = b.free["b0"] + rng.randint(0, 2)
+    b.new("P0", n)
+    b.add("P0", "h0", rng.randint(1, max(1, b.free["b0"] - 2)), rng.random() < 0.5)
+    b.add("P0", "b0", 0, False)
+    b.add("P0", "b0", b.place_mode("P0", "b0"), False)
+    b.prim("P0")
+    b.add("P0", "b0", 0, True)
+
+
+def shape_shared_components(b: cx.Book) -> None:
+    """copies and sums hold the same component objects as the original: extend one of them by a heralded
+    sub-circuit (an ancilla mode is inserted into every existing component), edit, unpack, rewrite"""
+    rng = b.rng
+    _leaf(b, "l0", rng.choice(["unitary", "circuit"]))
+    b.small_heralded("h0")
+    _cell(b, "b0", "l0", n=max(3, b.free["l0"] + 1), positive=True)
+    b.copy("k0", "b0")
+    b.plus("s0", "b0", "k0")
+    tgt = rng.choice(["k0", "s0", "b0"])
+    b.add(tgt, "h0", rng.choice([0, 0, 1]), rng.random() < 0.5)
+    b.prim(tgt)
+    other = rng.choice([x for x in ("k0", "s0", "b0") if x != tgt])
+    b.add(other, "h0", rng.randint(0, max(0, b.ports[other] - 1)), False)
+    b.prog.append([rng.choice(["unpack", "compress", "nonadj"]), rng.choice(["k0", "s0"])])
+    b.new("P0", b.ports["b0"] + rng.randint(1, 2))
+    b.add("P0", rng.choice(["k0", "s0", "b0"]), b.place_mode("P0", "b0", True), False)
+    b.add("P0", "b0", b.place_mode("P0", "b0"), rng.random() < 0.5)
+
+
+def shape_shared_child(b: cx.Book) -> None:
+    """one child in two cells (grouped at a mode > 0 in one, ungrouped in the other), both cells in one
+    parent and in each other; the child is edited afterwards"""
+    rng = b.rng
+    _leaf(b, "l0")
+    _cell(b, "b0", "l0", group=True, positive=True)
+    _cell(b, "b1", "l0", n=b.ports["b0"], group=rng.random() < 0.3)
+    n = b.ports["b0"] + rng.randint(1, 2)
+    b.new("P0", n)
+    b.add("P0", "b0", b.place_mode("P0", "b0", True), False)
+    b.add("P0", "b1", b.place_mode("P0", "b1"), rng.random() < 0.5)
+    if b.ports["l0"] >= 1:
+        b.prim("l0")
+    b.add("b1", "b0", 0, rng.random() < 0.5)
+    b.add("P0", "b1", b.place_mode("P0", "b1", True), False)
+    b.add("P0", "l0", b.place_mode("P0", "l0", True), rng.random() < 0.5)
+
+
+def shape_params_heralds(b: cx.Book) -> None:
+    """cells carrying Parameters and their own heralds (grouping is then forced), placed at modes > 0,
+    twice; a Parameter shared by the cell and the parent"""
+    rng = b.rng
+    keep, b.p_param = b.p_param, 0.9
+    _leaf(b, "l0", "circuit")
+    _cell(b, "b0", "l0", n=rng.randint(3, 4))
+    b.prim("b0", k=2)
+    b.copy("k0", "b0")
+    if rng.random() < 0.7:
+        b.herald("b0")
+    n = b.ports["b0"] + rng.randint(1, 2)
+    b.new("P0", n)
+    b.prim("P0", k=2)
+    b.add("P0", "b0", b.place_mode("P0", "b0", True), rng.random() < 0.5)
+    b.add("P0", "k0", b.place_mode("P0", "k0", True), False)
+    b.add("P0", "b0", b.place_mode("P0", "b0"), False)
+    b.prim("b0")
+    b.p_param = keep
+
+
+def shape_self_and_repeat(b: cx.Book) -> None:
+    """the same argument to the same parent grouped at mode 0, ungrouped at a mode > 0, and to itself"""
+    rng = b.rng
+    _leaf(b, "l0", "unitary")
+    _cell(b, "b0", "l0")
+    b.add("b0", "b0", 0, rng.random() < 0.5)
+    b.new("P0", b.ports["b0"] + rng.randint(1, 2))
+    b.add("P0", "b0", 0, True)
+    b.add("P0", "b0", b.place_mode("P0", "b0", True), False)
+    b.add("b0", "b0", 0, False)
+    b.add("P0", "P0", 0, rng.random() < 0.5)
+    b.add("P0", "b0", b.place_mode("P0", "b0", True), False)
+    b.add("P0", "b0", b.ports["P0"] - b.free["b0"] + 1, False)  # oversize: rejected, nothing may change
+
+
+CORPUS = [shape_tile, shape_depth2, shape_ancilla_in_span, shape_shared_components, shape_shared_child,
+          shape_params_heralds, shape_self_and_repeat]
+
+
+def gen_blocks(ctx: Ctx, rng) -> tuple[list, list]:
+    """random tiered history: leaves -> cells -> (wrapper) -> parents, then a script of placements,
+    edits, copies / sums, heralds and rejected calls over all of them"""
+    b = cx.Book(rng, p_param=rng.choice([0.0, 0.25, 0.5]))
+    leaves = [_leaf(b, f"l{k}") for k in range(rng.randint(1, 2))]
+    cells = []
+    for k in range(rng.randint(1, 2)):
+        leaf = rng.choice(leaves)
+        cid = _cell(b, f"b{k}", leaf, group=rng.random() < 0.8)
+        if rng.random() < 0.3:
+            lf = rng.choice(leaves)
+            b.add(cid, lf, b.place_mode(cid, lf), rng.random() < 0.6)
+        if rng.random() < 0.2:
+            b.herald(cid)
+        cells.append(cid)
+    if rng.random() < 0.35:
+        c0 = rng.choice(cells)
+        b.new("w0", min(6, b.free[c0] + rng.randint(0, 1)))
+        b.add("w0", c0, b.place_mode("w0", c0), rng.random() < 0.85)
+        b.prim("w0", k=rng.randint(0, 1))
+        cells.append("w0")
+    big = max(b.free[c] for c in cells)
+    parents = [b.new(f"P{k}", min(6, max(2, big + rng.randint(1, 2)))) for k in range(rng.randint(1, 2))]
+    helper = None
+    last = None
+    for step in range(rng.randint(4, ctx.n(9, 12))):
+        r = rng.random()
+        par = rng.choice(parents)
+        if r < 0.34:
+            sub = rng.choice(cells if rng.random() < 0.85 else leaves)
+            last = (par, sub)
+            b.add(par, sub, b.place_mode(par, sub), rng.random() < 0.35)
+            ctx.count("blocks:place")
+        elif r < 0.44 and last is not None:
+            par2 = last[0] if rng.random() < 0.6 else par
+            b.add(par2, last[1], b.place_mode(par2, last[1]), rng.random() < 0.3)
+            ctx.count("blocks:place-again")
+        elif r < 0.54:
+            b.prim(rng.choice(cells + leaves if rng.random() < 0.8 else parents), p_invalid=0.2)
+            ctx.count("blocks:edit")
+        elif r < 0.62:
+            if helper is None:
+                helper = b.small_heralded("h0")
+            tgt = rng.choice(parents + cells)
+            b.add(tgt, helper, b.place_mode(tgt, helper, rng.random() < 0.5), rng.random() < 0.5)
+            ctx.count("blocks:ancilla")
+        elif r < 0.72:
+            src = rng.choice(parents + cells)
+            new = b.copy(f"k{step}", src)
+            (parents if src in parents else cells).append(new)
+            ctx.count("blocks:copy")
+        elif r < 0.78:
+            a = rng.choice(cells + parents)
+            same_size = [x for x in cells + parents if b.ports[x] == b.ports[a]]
+            new = b.plus(f"s{step}", a, rng.choice(same_size))
+            (parents if a in parents else cells).append(new)
+            ctx.count("blocks:plus")
+        elif r < 0.84:
+            b.herald(rng.choice(parents + cells))
+            ctx.count("blocks:herald")
+        elif r < 0.90:
+            b.prog.append([rng.choice(["unpack", "compress", "nonadj"]), rng.choice(parents + cells)])
+            ctx.count("blocks:rewrite")
+        else:
+            sub = rng.choice(cells)
+            m = rng.choice([-1, b.ports[par], b.ports[par] - b.free[sub] + 1, b.ports[par] + 2])
+            b.add(par, sub, m, rng.random() < 0.5)
+            ctx.count("blocks:rejected-add")
+    return b.prog, b.ids
+
+
+def block_stats(ctx: Ctx, prog: list, res: list) -> None:
+    """which of the situations the block streams are there for did this history actually reach"""
+    grouped: set = set()  # ids that (transitively) hold a grouped block
+    heralded: set = set()
+    placed: dict = {}
+    for op, r in zip(prog, res):
+        if r != "ok":
+            continue
+        if op[0] == "herald":
+            heralded.add(op[1])
+        elif op[0] in ("copy", "plus"):
+            srcs = op[2:4] if op[0] == "plus" else op[2:3]
+            if any(s_ in grouped for s_ in srcs):
+                grouped.add(op[1])
+            if op[0] == "copy" and op[2] in heralded:
+                heralded.add(op[1])
+        elif op[0] == "unpack":
+            grouped.discard(op[1])
+        elif op[0] == "add":
+            _, par, sub, m, grp = op[:5]
+            forced = sub in heralded
+            if sub in grouped and not grp and not forced:
+                ctx.count("reached:ungrouped-add-of-arg-holding-group" + ("@m>0" if m > 0 else "@0"))
+                placed[(par, sub)] = placed.get((par, sub), 0) + 1
+                if placed[(par, sub)] == 2:
+                    ctx.count("reached:same-arg-with-group-placed-twice-ungrouped")
+            if grp or forced or sub in grouped:
+                grouped.add(par)
+            if forced:
+                heralded.add(par)
+
+
+_LAST: dict = {}
+
+
+def run_case(ctx: Ctx, prog: list, ids: list, model: bool = True) -> list[str]:
     probs: list[str] = []
     pool: dict = {}
+    params: dict = {}
     res = []
     snaps_after = []
     for k, op in enumerate(prog):
         before = {cid: snap(c) for cid, c in pool.items()}
-        r = cg.apply_op(pool, op)
+        r = cx.apply_op(pool, op, params)
         res.append(r)
         after = {cid: snap(c) for cid, c in pool.items()}
         snaps_after.append(after)
@@ -142,11 +418,14 @@ def run_case(ctx: Ctx, prog: list, ids: list) -> list[str]:
         for cid, b in before.items():
             if cid not in after:
                 continue
-            if (r != "ok" or cid != tgt) and not same(b, after[cid]):
+            d = cx.diff(b, after[cid]) if (r != "ok" or cid != tgt) else None
+            if d is not None:
                 why = "a call that raised" if r != "ok" else f"a call whose target is {tgt}"
-                probs.append(f"oracle: call #{k} {op[:5]} ({r}) — {why} changed object {cid} "
-                             f"(n_modes {b['n']}->{after[cid]['n']})")
+                probs.append(f"oracle: call #{k} {op[:5]} ({r}) — {why} changed object {cid} ({d})")
                 return probs
+    _LAST["results"] = res
+    if not model:
+        return probs
     live = [i for i in ids if i in pool]
     mres = ctx.model.call({"op": "circ", "prog": prog, "observe": live, "each": True})
     for k, (a, b) in enumerate(zip(res, mres["results"])):
@@ -164,6 +443,10 @@ def run_case(ctx: Ctx, prog: list, ids: list) -> list[str]:
                 return probs
             if "U_full" in o and not mat_close(o["U_full"], parse_mat(m["U_full"])):
                 probs.append(f"corr: after call #{k} {prog[k][:4]} object {cid}: U_full differs from the model")
+                return probs
+            if "U_full" not in o:
+                probs.append(f"corr: after call #{k} {prog[k][:4]} object {cid} does not compile "
+                             f"({o.get('U_error')}); the model has a matrix")
                 return probs
     return probs
 
@@ -206,9 +489,16 @@ def consumer_probes(ctx: Ctx, rng) -> None:
         c.add(sub, 1)
         c.bs(2, 3, loss=0.1)
         c.add(heralded_sub(rng), 0, group=bool(rng.getrandbits(1)))
+        # a building block that itself holds a grouped unitary block and a Parameter, placed ungrouped at a
+        # mode > 0: the consumers receive a circuit whose components are shared with `cell` and `blk`
+        blk = lw.Unitary(cg.mat_np(cg.exact_unitary(rng, 2)))
+        cell = lw.Circuit(2)
+        cell.ps(0, lw.Parameter(0.2, label="phi"))
+        cell.add(blk, 0, group=True, name="blk")
+        c.add(cell, rng.choice([1, 2]))
         st = lw.State([1, 0, 1, 0])
         st_list = st.s
-        objs = {"c": c, "sub": sub}
+        objs = {"c": c, "sub": sub, "cell": cell, "blk": blk}
         check("Simulator.simulate", objs, lambda: emulator.Simulator(c).simulate(st))
         check("Sampler.probability_distribution", objs, lambda: emulator.Sampler(c, st).probability_distribution)
         check("Sampler.sample_N_inputs", objs, lambda: emulator.Sampler(c, st).sample_N_inputs(20, seed=1))
